@@ -111,7 +111,9 @@ func (ch *Channel) Invoke(ctx context.Context, methodName string, req, resp inte
 	case <-respCh:
 	}
 	if err != nil {
-		return err
+		// (reading the body fails with the context's error if the call was
+		// cancelled or timed out meanwhile)
+		return statusFromContextError(err)
 	}
 	return codec.Unmarshal(b, resp)
 }
@@ -394,6 +396,11 @@ func (cs *clientStream) doHttpCall(transport http.RoundTripper, req *http.Reques
 			cs.rMu.Lock()
 		}
 		defer cs.rMu.Unlock()
+
+		// a read that failed because the call was cancelled or timed out is
+		// reported as the matching gRPC status, not as a bare context error
+		rErr = statusFromContextError(rErr)
+		cs.rErr = statusFromContextError(cs.rErr)
 
 		if rErr != nil && cs.rErr == nil {
 			cs.rErr = rErr
